@@ -361,6 +361,9 @@ def rewrite_R12(text):
     """comparisons of masks go through the contract methods mask_cmp / mask_lt (`Self::R: PrimInt` has no Verus model)"""
     text = re.sub(r"([A-Za-z_][A-Za-z0-9_]*)\.mask\(\)\.cmp\(&([A-Za-z_][A-Za-z0-9_]*)\.mask\(\)\)", r"\1.mask_cmp(\2)", text)
     text = re.sub(r"([A-Za-z_][A-Za-z0-9_]*)\.mask\(\)\s*<\s*([A-Za-z_][A-Za-z0-9_]*)\.mask\(\)", r"\1.mask_lt(\2)", text)
+    text = re.sub(r"([A-Za-z_][A-Za-z0-9_]*)\.mask\(\)\s*==\s*([A-Za-z_][A-Za-z0-9_]*)\.mask\(\)", r"\1.mask_eq(\2)", text)
+    text = re.sub(r"([A-Za-z_][A-Za-z0-9_]*)\.mask\(\)\s*!=\s*([A-Za-z_][A-Za-z0-9_]*)\.mask\(\)", r"!\1.mask_eq(\2)", text)
+    text = re.sub(r"([A-Za-z_][A-Za-z0-9_]*)\.mask\(\)\s*>\s*([A-Za-z_][A-Za-z0-9_]*)\.mask\(\)", r"\2.mask_lt(\1)", text)
     # comparisons of representations (never present in /repo; makes such a change decidable, see speclib/base.rs)
     ID = r"([A-Za-z_][A-Za-z0-9_]*)"
     text = re.sub(ID + r"\.repr\(\)\.cmp\(&" + ID + r"\.repr\(\)\)", r"\1.repr_cmp(\2)", text)
